@@ -2,6 +2,7 @@ import VermouthModel.C19
 import VermouthModel.C19_Repair
 import VermouthModel.C19_Cli
 import VermouthModel.C19_Pipeline
+import VermouthModel.C19_Hist
 import Generated.C19Table
 open Proto C19
 
@@ -157,6 +158,29 @@ def handle (_ : Unit) (toks : List Tok) : Unit × String :=
         match parseRequests mods, parseRequests muts with
         | some pm, some pt =>
           let rs := runHistory lib { mods := pm, muts := pt, counts := [] } ops
+          pure (" | ".intercalate (rs.map fun r =>
+            match r with
+            | .system res => encErr res.err ++ " " ++ encList (res.mols.map encMol) ++ " " ++
+                encList (res.reports.map fun rp => encList [encS rp.mutmod, encKind rp.kind, encS rp.post])
+            | .molecule atoms err => encErr err ++ " " ++ encList [encMol { atoms := atoms, edges := [] }] ++ " [ ]"))
+        | _, _ => pure "valueerror"
+    | [Tok.str "history2", mods, muts, ops] => do
+        let mods ← (← mods.list?).mapM pairOf
+        let muts ← (← muts.list?).mapM pairOf
+        let ops ← (← ops.list?).mapM fun t => do
+          match ← t.list? with
+          | [k, payload, mlib, blib] =>
+            let lib : Lib := { protein := C19Table.proteinResidues,
+                               modifications := (← strs? mlib).map String.toList,
+                               blocks := (← strs? blib).map String.toList }
+            match k with
+            | Tok.int 0 => pure (lib, Op.system (← (← payload.list?).mapM molOf))
+            | Tok.int 1 => pure (lib, Op.molecule (← molOf payload))
+            | _ => none
+          | _ => none
+        match parseRequests mods, parseRequests muts with
+        | some pm, some pt =>
+          let rs := runHistoryLibs { mods := pm, muts := pt, counts := [] } ops
           pure (" | ".intercalate (rs.map fun r =>
             match r with
             | .system res => encErr res.err ++ " " ++ encList (res.mols.map encMol) ++ " " ++
